@@ -22,7 +22,7 @@ TraceFile == IOEnv.ORB_TRACE
 Trace == ndJsonDeserialize(TraceFile)
 
 \* which property predicates this run evaluates (driver passes a comma-less list via env)
-PropIds == {"C01", "C02", "C03", "C04", "C05", "C06", "C14", "C20", "C17b", "C08", "C09", "C10", "C11", "C12", "C17", "C18"}
+PropIds == {"C01", "C02", "C03", "C04", "C05", "C06", "C07", "C13", "C19", "C14", "C15", "C16", "C20", "C17b", "C08", "C09", "C10", "C11", "C12", "C17", "C18"}
 
 -----------------------------------------------------------------------------
 (* JSON -> specification values                                            *)
@@ -60,6 +60,10 @@ OrbUp(ev) == \E i \in DOMAIN ev.obs.orbPost : ev.obs.orbPost[i].a > AmtIn(ev.obs
 
 \* instrumented mode logs the coin each action saw and left
 HasTrace(ev) == ev.in.t = "recv" /\ "x" \in DOMAIN ev.obs /\ "perAction" \in DOMAIN ev.obs.x
+
+HasXAny(ev, f) == "x" \in DOMAIN ev.obs /\ f \in DOMAIN ev.obs.x
+JAmt(e) == [sp |-> e.sp, sc |-> e.sc, dp |-> e.dp, dc |-> e.dc, denom |-> e.denom, in |-> e.in, out |-> e.out]
+HasX(ev, f) == ev.in.t = "recv" /\ "x" \in DOMAIN ev.obs /\ f \in DOMAIN ev.obs.x
 
 DummyOut == [ok |-> FALSE]
 JCtl(ev, name, pre0) ==
@@ -109,6 +113,26 @@ ToStep(ev) ==
              THEN [exportOk |-> ev.obs.x.exportOk, validateOk |-> ev.obs.x.validateOk, initOk |-> ev.obs.x.initOk,
                    sameExport |-> ev.obs.x.sameExport, fullOk |-> ev.obs.x.fullOk]
              ELSE DummyX,
+       hasDiff |-> HasXAny(ev, "diff"),
+       diff |-> IF HasXAny(ev, "diff")
+                THEN [ackEq |-> ev.obs.x.diff.ackEq, eventsEq |-> ev.obs.x.diff.eventsEq, stateEq |-> ev.obs.x.diff.stateEq,
+                      appVersionEq |-> IF "appVersionEq" \in DOMAIN ev.obs.x THEN ev.obs.x.appVersionEq ELSE TRUE]
+                ELSE [ackEq |-> TRUE, eventsEq |-> TRUE, stateEq |-> TRUE, appVersionEq |-> TRUE],
+       pages |-> IF ev.in.t = "query"
+                 THEN [i \in DOMAIN ev.obs.x.pages |->
+                         [items |-> [j \in DOMAIN ev.obs.x.pages[i].items |-> JAmt(ev.obs.x.pages[i].items[j])],
+                          hasNext |-> ev.obs.x.pages[i].hasNext, total |-> ev.obs.x.pages[i].total, err |-> ev.obs.x.pages[i].err]]
+                 ELSE <<>>,
+       hasDig |-> HasXAny(ev, "dig"),
+       dig |-> IF HasXAny(ev, "dig") THEN ev.obs.x.dig ELSE "",
+       peers |-> IF HasXAny(ev, "dig") THEN ev.obs.x.peers ELSE <<>>,
+       hasParse |-> HasX(ev, "parse"),
+       parse |-> IF HasX(ev, "parse") THEN [ok |-> ev.obs.x.parse.ok, pure |-> ev.obs.x.parse.pure] ELSE [ok |-> FALSE, pure |-> TRUE],
+       rt |-> IF HasX(ev, "rt") THEN [built |-> ev.obs.x.rt.built, parseOk |-> ev.obs.x.rt.parseOk, equal |-> ev.obs.x.rt.equal,
+                                      remarshalEqual |-> ev.obs.x.rt.remarshalEqual, sameMemo |-> ev.obs.x.rt.sameMemo]
+              ELSE [built |-> FALSE, parseOk |-> FALSE, equal |-> FALSE, remarshalEqual |-> FALSE, sameMemo |-> FALSE],
+       hasCredit |-> HasX(ev, "ics20Seen") /\ ev.obs.x.ics20Seen,
+       credit |-> IF HasX(ev, "ics20Seen") /\ ev.obs.x.ics20Seen THEN ev.obs.x.ics20Credit ELSE <<>>,
        idres |-> IF ev.in.t = "ident" THEN ev.obs.x.ids ELSE <<>>,
        gen |-> IF ev.in.t = "gendoc" THEN [validateOk |-> ev.obs.x.validateOk, initOk |-> ev.obs.x.initOk]
                ELSE [validateOk |-> FALSE, initOk |-> FALSE] ]
@@ -116,7 +140,7 @@ ToStep(ev) ==
 -----------------------------------------------------------------------------
 (* Conformance of the observed step with Apply, per variable group         *)
 
-Groups == {"ack", "bal", "supply", "pause", "params", "stats", "env", "req", "fired", "actions", "ident", "genesis"}
+Groups == {"qstats", "ack", "bal", "supply", "pause", "params", "stats", "env", "req", "fired", "actions", "ident", "genesis", "parse"}
 
 Mismatch_(ev, S) ==
   LET exp == Apply(S.pre, ev.in)
@@ -131,6 +155,9 @@ Mismatch_(ev, S) ==
           [] g = "params" -> <<exp.st.maxPT, exp.st.hasParams>> # <<S.post.maxPT, S.post.hasParams>>
           [] g = "stats"  -> <<exp.st.amt, exp.st.cnt>> # <<S.post.amt, S.post.cnt>>
           [] g = "env"    -> exp.st.env # S.post.env
+          [] g = "qstats" -> ev.in.t = "query" /\ [i \in DOMAIN S.pages |-> [n |-> Len(S.pages[i].items), h |-> S.pages[i].hasNext, e |-> S.pages[i].err]]
+                                                  # [i \in DOMAIN ModelPages(S.pre, ev.in.q) |-> LET m == ModelPages(S.pre, ev.in.q)[i] IN [n |-> Len(m.items), h |-> m.hasNext, e |-> m.err]]
+          [] g = "parse"  -> S.hasParse /\ ev.in.mk = "PAYLOAD" /\ (ParseOK(ev.in) /\ PayloadValid(ev.in)) # S.parse.ok
           [] g = "ident"  -> ev.in.t = "ident" /\ IdentModel(S.pre, ev.in) # S.idres
           [] g = "genesis" -> ev.in.t = "gendoc" /\ GenValid(ev.in.g) # S.gen.validateOk
           [] g = "fired"  -> exp.fired # S.fired
@@ -143,7 +170,8 @@ PropHolds(c, S) ==
   CASE c = "C01" -> Prop_C01(S) [] c = "C02" -> Prop_C02(S) [] c = "C03" -> Prop_C03(S)
     [] c = "C04" -> Prop_C04(S) [] c = "C05" -> Prop_C05(S) [] c = "C06" -> Prop_C06(S) [] c = "C08" -> Prop_C08(S)
     [] c = "C09" -> Prop_C09(S) [] c = "C10" -> Prop_C10(S) [] c = "C11" -> Prop_C11(S)
-    [] c = "C14" -> Prop_C14(S) [] c = "C20" -> Prop_C20(S) [] c = "C17b" -> Prop_C17b(S) [] c = "C12" -> Prop_C12(S) [] c = "C17" -> Prop_C17(S) [] c = "C18" -> Prop_C18(S)
+    [] c = "C07" -> Prop_C07(S) [] c = "C13" -> Prop_C13(S) [] c = "C19" -> Prop_C19(S)
+    [] c = "C14" -> Prop_C14(S) [] c = "C15" -> Prop_C15(S) [] c = "C16" -> Prop_C16(S) [] c = "C20" -> Prop_C20(S) [] c = "C17b" -> Prop_C17b(S) [] c = "C12" -> Prop_C12(S) [] c = "C17" -> Prop_C17(S) [] c = "C18" -> Prop_C18(S)
     [] OTHER -> TRUE
 
 \* antecedent flags: on which properties this step is a non-trivial evaluation
@@ -158,6 +186,11 @@ Ante(S) ==
        [] c = "C08" -> (HasPayload(S) /\ (S.pre.pProto # {} \/ S.pre.pCC # {})) \/ IsPauseMsg(S)
        [] c = "C09" -> (HasPayload(S) /\ S.pre.pAct # {}) \/ (IsAdmin(S) /\ S.in.rpc \in ActionRpcs)
        [] c = "C14" -> IsRecv(S) /\ S.in.mk \in {"MUT", "RANDOM", "RAW"}
+       [] c = "C07" -> (IsRecv(S) /\ ~ForOrbiter(S.in) /\ S.hasDiff) \/ S.in.t \in {"ackpkt", "timeout"}
+       [] c = "C13" -> S.in.t = "query"
+       [] c = "C19" -> S.hasDig /\ Len(S.peers) > 0
+       [] c = "C15" -> IsRecv(S) /\ S.hasParse
+       [] c = "C16" -> IsOrbiterPacket(S) /\ S.in.dn # "L" /\ (~ReturningNative(S.in) \/ (S.ok /\ S.hasCredit))
        [] c = "C20" -> S.in.t = "ident"
        [] c = "C17b" -> S.in.t = "gendoc" /\ S.gen.validateOk
        [] c = "C10" -> IsAdmin(S)
